@@ -16,6 +16,7 @@ global size_of usize == 8;
 //@include prelude/list_core_std.rs
 //@include prelude/weighted_map_std.rs
 //@include prelude/list_ops_std.rs
+//@include prelude/iter_wrappers.rs
 //@include prelude/c13left_std.rs
 
 //@import units/inc/map_core.inc.rs
